@@ -25,6 +25,10 @@ def binning_snapshot(b) -> Dict[str, Any]:
 
 def snapshot(h, *, stats: bool = True, meta: bool = True) -> Dict[str, Any]:
     """Everything a histogram reports through its public attributes."""
+    if not all(hasattr(h, a) for a in ("binnings", "frequencies", "errors2", "ndim", "dtype")):
+        from pbt.core import Violation
+
+        raise Violation("not_a_histogram", f"a histogram was expected here, got {type(h).__name__}: {repr(h)[:120]}")
     s: Dict[str, Any] = {
         "class": type(h).__name__,
         "ndim": h.ndim,
